@@ -1016,6 +1016,12 @@ class Engine:
                         _v.v = (_v.v + bytes([x])) if not is_sym(_v.v) else z3.Concat(_v.v, z3.Unit(z3.IntVal(x)))
                 return Builtin("bytearray.append", app)
             raise Unsupported(f"bytearray.{attr}")
+        if isinstance(v, set) and attr in ("add", "discard", "remove", "update", "copy", "clear", "pop"):
+            def smeth(eng, *a, _m=getattr(v, attr)):
+                if any(is_sym(x) for x in a): raise Unsupported("set with a symbolic member")
+                try: return _m(*[list(eng.iterate(x)) if attr == "update" else x for x in a])
+                except KeyError: raise PyRaise(Exc("KeyError"))
+            return Builtin("set." + attr, smeth)
         if isinstance(v, list) and attr == "append":
             return Builtin("list.append", lambda eng, x, _v=v: _v.append(x))
         if isinstance(v, list) and attr == "sort":
@@ -1187,6 +1193,7 @@ class Engine:
     def iterate(self, it):
         if type(it).__name__ in ("dict_items", "dict_keys", "dict_values", "map", "enumerate"): return list(it)
         if isinstance(it, (list, tuple, str, range, bytes)): return list(it)
+        if isinstance(it, (set, frozenset)): return sorted(it, key=lambda x: (type(x).__name__, x if isinstance(x, (int, str)) else id(x)))
         if isinstance(it, dict): return list(it)
         if isinstance(it, zip): return list(it)
         raise Unsupported(f"iterate over {it!r}")
@@ -1664,6 +1671,12 @@ def announced_len(v):
     if isinstance(v, ByteBuf): v = v.v
     return slen(v)
 
+def b_set(eng, v=()):
+    """a set of concrete hashable members (objects by identity, concrete ints / strings); symbolic members are outside the subset"""
+    items = list(eng.iterate(v))
+    if any(is_sym(x) for x in items): raise Unsupported("set of symbolic values")
+    return set(items)
+
 def b_len(eng, v):
     if isinstance(v, Obj) and isinstance(v.cls, ClassV) and v.cls.lookup("__len__") is not None:
         return eng.call(Bound(v, v.cls.lookup("__len__")), [], {})
@@ -1824,6 +1837,7 @@ BUILTINS = {
     "struct.pack": Builtin("struct.pack", b_struct_pack),
     "int": TypeV("int", b_int, int), "str": TypeV("str", b_str, str), "bytes": TypeV("bytes", lambda eng, v=b"": b_bytes(eng, v), bytes),
     "list": TypeV("list", lambda eng, v=(): list(eng.iterate(v)), list),
+    "set": TypeV("set", lambda eng, v=(): b_set(eng, v), set),
     "dict": TypeV("dict", lambda eng, v=(), **kw: dict(v, **kw), dict),
     "range": Builtin("range", lambda eng, *a: b_range(eng, *a)),
     "zip": Builtin("zip", lambda eng, *a: list(zip(*[eng.iterate(x) for x in a]))),
